@@ -13,7 +13,10 @@ import (
 	"strings"
 	"testing"
 
+	"github.com/ipfs/go-cid"
 	"github.com/libp2p/go-libp2p/core/peer"
+	"github.com/libp2p/go-libp2p/core/routing"
+	mh "github.com/multiformats/go-multihash"
 
 	"github.com/libp2p/go-libp2p-kad-dht/internal/vmc"
 	"github.com/libp2p/go-libp2p-kad-dht/internal/vmc/kid"
@@ -32,6 +35,10 @@ type c01cfg struct {
 	keyCell    string
 	c02        bool // run the C02 oracles too (termination rule, every returned peer was asked)
 	diversity  bool // configure the routing-table IP diversity filter (the query then also filters responses by IP group)
+	// op selects the lookup that is driven: "" = GetClosestPeers; "findpeer", "providers", "value" = the lookups of
+	// FindPeer / FindProvidersAsync / GetValue for a target nobody has (they run to completion like a closest-peers
+	// lookup; only the per-response rules are checked for them, not the returned value)
+	op string
 }
 
 var c01Cells = []string{"000", "001", "010", "100", "110", "111"}
@@ -170,6 +177,16 @@ func c01Run(x *vmc.X, cfg vmc.Cfg) {
 	c := cfg.Data.(c01cfg)
 	w, ids := c01World(c)
 	key := kid.KeyWithPrefix("v", c.keyCell, 0)
+	var opMh mh.Multihash
+	var opPeer peer.ID
+	switch c.op {
+	case "providers":
+		opMh = kid.Mh(c.keyCell, 0)
+		key = string(opMh)
+	case "findpeer":
+		opPeer = kid.Peer(c.keyCell, 7)
+		key = string(opPeer)
+	}
 	filtered := w.Filtered
 	opts := []Option{QueryFilter(func(_ any, ai peer.AddrInfo) bool { return ai.ID != filtered })}
 	var hostOpts func(h host.Host) []Option
@@ -198,8 +215,23 @@ func c01Run(x *vmc.X, cfg vmc.Cfg) {
 	}
 	resCh := make(chan lookupOutcome, 1)
 	go func() {
-		ps, err := l.d.GetClosestPeers(l.ctx, key)
-		resCh <- lookupOutcome{ps, err}
+		switch c.op {
+		case "findpeer":
+			_, err := l.d.FindPeer(l.ctx, opPeer)
+			resCh <- lookupOutcome{nil, err}
+		case "providers":
+			n := 0
+			for range l.d.FindProvidersAsync(l.ctx, cid.NewCidV1(cid.Raw, opMh), 1) {
+				n++
+			}
+			resCh <- lookupOutcome{nil, fmt.Errorf("%d providers", n)}
+		case "value":
+			_, err := l.d.GetValue(l.ctx, key)
+			resCh <- lookupOutcome{nil, err}
+		default:
+			ps, err := l.d.GetClosestPeers(l.ctx, key)
+			resCh <- lookupOutcome{ps, err}
+		}
 	}()
 	tr := newC01Track(x, l, c.k, key, seeds)
 	if c.c02 {
@@ -217,6 +249,25 @@ func c01Run(x *vmc.X, cfg vmc.Cfg) {
 			return false
 		}
 	}, 300) {
+		return
+	}
+	if c.op != "" {
+		// the other lookups: every response event was checked against the delivered answer (2K cap, self and
+		// filtered peers removed) as it was published; nobody has the target, so nothing is found
+		if !tr.step() {
+			return
+		}
+		if len(seeds) > 0 && tr.termStep < 0 {
+			x.Failf("C01/no-terminate-event", "%s: no LookupTerminateEvent was published", c.op)
+			return
+		}
+		want := map[string]string{"findpeer": routing.ErrNotFound.Error(), "providers": "0 providers", "value": routing.ErrNotFound.Error()}[c.op]
+		if len(seeds) > 0 && (out.err == nil || out.err.Error() != want) {
+			x.Failf("C10/lookup/result", "%s for a target nobody has returned %v, expected %q", c.op, out.err, want)
+			return
+		}
+		x.Obs("%s err=%v", c.op, out.err)
+		x.Outcome("%s %v", c.op, out.err)
 		return
 	}
 	if !tr.final(out) {
@@ -525,6 +576,14 @@ func c10LookupConfigs(tier string) []vmc.Cfg {
 					for _, sd := range [][]int{{0}, {3}, {0, 3}} {
 						c := c01cfg{n: 4, k: k, a: 2, b: 1, behaviours: as, knowledge: "full", seeds: sd, keyCell: "000", diversity: div}
 						out = append(out, vmc.Cfg{Name: fmt.Sprintf("lookup/diversity-%v/k%d/%s/seeds%v", div, k, strings.Join(as, ","), sd), Data: c})
+						// the same over-long answers to the other request kinds that carry closer peers
+						if (tier == "thorough" || (k == 2 && len(sd) == 2)) && beh != sim.BAll {
+							for _, op := range []string{"findpeer", "providers", "value"} {
+								c2 := c
+								c2.op = op
+								out = append(out, vmc.Cfg{Name: fmt.Sprintf("lookup-%s/diversity-%v/k%d/%s/seeds%v", op, div, k, strings.Join(as, ","), sd), Data: c2})
+							}
+						}
 					}
 				}
 			}
